@@ -212,6 +212,10 @@ func (r *kvRunner) apply(op kvOp) *vcommon.Violation {
 		if v := r.compactAll(); v != nil {
 			return v
 		}
+	case "transferback":
+		if v := r.transferBack(); v != nil {
+			return v
+		}
 	case "transfer", "transferdup":
 		if v := r.transfer(op.Op == "transferdup"); v != nil {
 			return v
@@ -263,7 +267,24 @@ func (r *kvRunner) transfer(dup bool) *vcommon.Violation {
 	if err != nil {
 		return r.fail("fork-error", "Fork: %v", err)
 	}
-	dst := dstE.(*KVStore)
+	return r.transferTo(dstE.(*KVStore), dup)
+}
+
+// transferBack moves everything to a fresh store and then back into the emptied source, which may still hold recycled
+// tables: a member that handed a partition over and gets it back before its janitor removed the emptied fragment.
+func (r *kvRunner) transferBack() *vcommon.Violation {
+	orig := r.s
+	if v := r.transfer(false); v != nil {
+		return v
+	}
+	r.labels["transfer-back"] = true
+	if v := r.transferTo(orig, false); v != nil {
+		return v
+	}
+	return r.checkScan(3, "")
+}
+
+func (r *kvRunner) transferTo(dst *KVStore, dup bool) *vcommon.Violation {
 	merge := func(hkey uint64, e storage.Entry) error {
 		cur, err := dst.Get(hkey)
 		if errors.Is(err, storage.ErrKeyNotFound) {
@@ -661,7 +682,7 @@ func genKVCase(t *rapid.T, maxOps int, withScan bool) *kvCase {
 	c.Keys = allKeys[:nk]
 	c.Sizes = []int{rapid.IntRange(0, 8).Draw(t, "tiny"), ts/4 - 29, ts/2 - 29, ts/3 - 10}
 	nops := rapid.IntRange(1, maxOps).Draw(t, "nops")
-	kinds := []string{"put", "put", "put", "put", "putraw", "putraw", "del", "del", "ttl", "compact1", "compactall", "transfer", "transferdup"}
+	kinds := []string{"put", "put", "put", "put", "putraw", "putraw", "del", "del", "ttl", "compact1", "compactall", "transfer", "transferdup", "transferback"}
 	if withScan {
 		kinds = append(kinds, "scan", "scan", "scan", "scanmid", "scanmid")
 	}
